@@ -14,7 +14,7 @@ import (
 func init() {
 	register(&propDef{
 		ID:          "C04",
-		Explanation: "Decides that the URL sanitiser has the allow-list shape with exactly the listed schemes, and the typed routing — not a WHATWG URL parse of the output: R1 templ.URL is walked as a decision function over the truth assignments of its atoms (colon found, slash before the first colon, one case-insensitive comparison per scheme): the input is returned (converted to SafeURL, unmodified) only when no colon was found, or a slash precedes the first colon, or the text before the first colon equals one of the compared constants; every compared constant is one of {http, https, mailto, tel, ftp, ftps}; every other path returns the constant failure URL, whose own scheme is about:; the compared text is the input up to the FIRST colon; no other normalisation of the input takes place; R2 the generator routes at least (a, href) and (form, action) to the emission `var v templ.SafeURL = <expr>` followed by the HTML-escaped write of string(v) (GEM), and type-level witnesses hold: SafeURL is a defined, non-alias type with underlying string, templ.URL has type func(string) templ.SafeURL, and assigning a plain string variable to a SafeURL variable does not type-check. R3 the escaper the URL is written through (templ.EscapeString) returns html.EscapeString of its argument on every path: an escaper that keeps existing character references would turn the colon-free, hence accepted, `javascript&colon;…` into a javascript: URL in the attribute. NOT decided: how a browser resolves the returned string (trusted argument: a scheme cannot contain '/', and without ':' there is no scheme), href values arriving through spread attributes.",
+		Explanation: "Decides that the URL sanitiser has the allow-list shape with exactly the listed schemes, and the typed routing — not a WHATWG URL parse of the output: R1 templ.URL is walked as a decision function over the truth assignments of its atoms (colon found, slash before the first colon, one case-insensitive comparison per scheme): the input is returned (converted to SafeURL, unmodified) only when no colon was found, or a slash precedes the first colon, or the text before the first colon equals one of the compared constants; every compared constant is one of {http, https, mailto, tel, ftp, ftps}; every other path returns the constant failure URL, whose own scheme is about:; the compared text is the input up to the FIRST colon; no other normalisation of the input takes place; R2 the generator routes at least (a, href) and (form, action) to the emission `var v templ.SafeURL = <expr>` followed by the HTML-escaped write of string(v) (GEM), and type-level witnesses hold: SafeURL is a defined, non-alias type with underlying string, templ.URL has type func(string) templ.SafeURL, and assigning a plain string variable to a SafeURL variable does not type-check. (the attribute names are compared case-insensitively, as browsers do); R3 the escaper the URL is written through (templ.EscapeString) returns html.EscapeString of its argument on every path: an escaper that keeps existing character references would turn the colon-free, hence accepted, `javascript&colon;…` into a javascript: URL in the attribute. NOT decided: how a browser resolves the returned string (trusted argument: a scheme cannot contain '/', and without ':' there is no scheme), href values arriving through spread attributes.",
 		Assumptions: []string{"a URL reference is relative when it has no ':' or a '/' occurs before its first ':'", "strings.EqualFold is case-insensitive equality"},
 		Trusted:     []string{"go/types", "go/parser", "x/tools go/packages"},
 		Run:         runC04,
@@ -386,6 +386,7 @@ func runC04(c *Ctx) {
 				found = true
 				// disjunction of conjunctions elementName == "x" && attr.Name == "y"
 				pairs := map[string]bool{}
+				var caseSensitive []string
 				var walk func(e ast.Expr)
 				walk = func(e ast.Expr) {
 					e = ast.Unparen(e)
@@ -400,10 +401,23 @@ func runC04(c *Ctx) {
 					}
 					if be.Op == token.LAND {
 						var consts []string
-						for _, side := range []ast.Expr{be.X, be.Y} {
+						for i, side := range []ast.Expr{be.X, be.Y} {
 							if b2, ok := ast.Unparen(side).(*ast.BinaryExpr); ok && b2.Op == token.EQL {
 								if s, ok := constString(g.info, b2.Y); ok {
 									consts = append(consts, s)
+									// the attribute name (second conjunct) compared with ==: exact case only
+									if i == 1 && !strings.Contains(types.ExprString(b2.X), "ToLower") {
+										caseSensitive = append(caseSensitive, s)
+									}
+								}
+							}
+							if call, ok := ast.Unparen(side).(*ast.CallExpr); ok && len(call.Args) == 2 {
+								if fn := calleeOf(g.info, call); fn != nil && fullName(fn) == "strings.EqualFold" {
+									for _, a := range call.Args {
+										if s, ok := constString(g.info, a); ok {
+											consts = append(consts, s)
+										}
+									}
 								}
 							}
 						}
@@ -415,6 +429,8 @@ func runC04(c *Ctx) {
 				walk(is.Cond)
 				c.check(pairs["a/href"] && pairs["form/action"], "C04.R2", gf.Key+"|url-attributes-routed", c.pos(is.Pos()), fmt.Sprintf("routed to the SafeURL emission: %v", keysOfBool(pairs)),
 					fmt.Sprintf("%s routes %v to the SafeURL emission; (a, href) and (form, action) must be among them, otherwise a plain string compiles as a link target", gf.Name, keysOfBool(pairs)))
+				c.check(len(caseSensitive) == 0, "C04.R2", gf.Key+"|url-attribute-names-case-insensitive", c.pos(is.Pos()), "attribute names are compared case-insensitively",
+					fmt.Sprintf("%s compares the attribute name with == %q: HTML attribute names are case-insensitive, so <a HREF={ s }> (or Href, hReF …) is a link target in the browser but takes the plain-string path here — a string compiles and is written without templ.URL", gf.Name, caseSensitive))
 				// it must be the first alternative (no earlier branch can capture href)
 				return true
 			})
